@@ -54,6 +54,11 @@ pub use datagrams::{Datagrams, SendDatagramError};
 mod mtud;
 mod pacing;
 
+#[cfg(feature = "verif-probe")]
+mod verif_probe;
+#[cfg(feature = "verif-probe")]
+pub use verif_probe::VerifProbe;
+
 mod packet_builder;
 use packet_builder::PacketBuilder;
 
